@@ -27,6 +27,11 @@ def gen_case(rng):
         extra.append((rng.choice(['€uro2024', '中文pass1', '…dots99', 'ﬁsh', '€']), rng.choice([1, 2])))          # first byte 0xE2-0xEF: hex text starting with E / e
     if enc in ('latin-1', 'cp1252'):
         extra.append((rng.choice(['été99', 'île1', 'àpass', 'ï']), rng.choice([1, 2])))                         # first byte 0xE0-0xEF
+    if rng.random() < 0.2:
+        # long but legal passwords (pass phrases, keys): their $HEX[] spelling is more than twice as long, their count-prefixed line a little longer
+        extra.append((''.join(rng.choice('abcdefghij klmnop0123456789') for _ in range(rng.choice([130, 200, 252, 256, 300]))).strip() or 'x', rng.choice([1, 2])))
+        if enc == 'utf-8':
+            extra.append((''.join(rng.choice('\u0e01\u0e02\u0e04\u4e2d\u6587') for _ in range(rng.choice([45, 90]))) + '1', 1))
     items = [(p, k) for p, k in items + extra if trainlists.encodable(p, enc)]
     rng.shuffle(items)
     # junk lines: (kind, payload) placed after item index i
